@@ -272,12 +272,50 @@ def _fmt_template(raw):
             i += ln
         elif n == 0xC0:
             out.append(None)
+        elif n & 0xF0 == 0xC0:
+            # placeholder with options: bit0 = flags (u32), bit1 = width (u16), bit2 = precision (u16), bit3 = argument index (u16)
+            flags = width = prec = idx = None
+            if n & 1:
+                flags = int.from_bytes(raw[i:i + 4], "little")
+                i += 4
+            if n & 2:
+                width = int.from_bytes(raw[i:i + 2], "little")
+                i += 2
+            if n & 4:
+                prec = int.from_bytes(raw[i:i + 2], "little")
+                i += 2
+            if n & 8:
+                idx = int.from_bytes(raw[i:i + 2], "little")
+                i += 2
+            out.append(("ph", flags, width, prec, idx))
         else:
             return None
     return out
 
 
-def _fmt_arg(a):
+def _fmt_arg(a, spec=None):
+    t = _fmt_arg_plain(a)
+    if t is None or spec is None:
+        return t
+    _, flags, width, prec, _idx = spec
+    if prec is not None:
+        return None
+    if width is not None and len(t) < width:
+        numeric = a.v[0].deref().k == "int"
+        fl = flags or 0x20
+        fill = chr(fl & 0x1FFFFF) if (fl & 0x1FFFFF) else " "
+        if (fl >> 24) & 1 and numeric:
+            return t.rjust(width, "0")
+        align = (fl >> 29) & 3
+        if align == 0 or (align == 3 and not numeric):
+            return t.ljust(width, fill)
+        if align == 2:
+            return t.center(width, fill)
+        return t.rjust(width, fill)
+    return t
+
+
+def _fmt_arg_plain(a):
     if a.k != "fmtarg":
         return None
     v = a.v[0].deref()
@@ -486,12 +524,20 @@ class Interp:
             pieces, fargs = d[0].v
             out, i = "", 0
             for pc in pieces:
-                if pc is not None:
+                if isinstance(pc, str):
                     out += pc
+                    continue
+                if pc is not None and pc[4] is not None:
+                    if pc[4] >= len(fargs):
+                        return None
+                    t = _fmt_arg(fargs[pc[4]], pc)
+                    if t is None:
+                        return None
+                    out += t
                     continue
                 if i >= len(fargs):
                     return None
-                t = _fmt_arg(fargs[i])
+                t = _fmt_arg(fargs[i], pc)
                 i += 1
                 if t is None:
                     return None
@@ -499,6 +545,8 @@ class Interp:
             return vstr(out)
         if fn == "core::hint::must_use" and args:
             return args[0]
+        if fn in ("alloc::string::String::new", "alloc::string::String::with_capacity"):
+            return vstr("")
         if fn.startswith(("core::ops::bit::", "core::ops::arith::")) and len(d) == 2 and d[0].k == "int" and d[1].k == "int":
             x, y = d[0].v, d[1].v
             ops = {"bitand": lambda: x & y, "bitor": lambda: x | y, "bitxor": lambda: x ^ y, "shr": lambda: x >> y if 0 <= y < 128 and x >= 0 else None,
@@ -581,6 +629,9 @@ class Interp:
             return UNIT
         if fn == "alloc::vec::Vec::append" and cur.k == "list" and len(args) > 1 and args[1].deref().k == "list":
             env[tgt] = Val("list", list(cur.v) + list(args[1].deref().v))
+            return UNIT
+        if fn in ("alloc::string::String::push", "alloc::string::String::push_str") and cur.k == "str" and len(args) > 1 and args[1].deref().k in ("str", "char"):
+            env[tgt] = vstr(cur.v + args[1].deref().v)
             return UNIT
         if fn == "alloc::vec::Vec::pop" and cur.k == "list":
             if cur.v:
@@ -704,7 +755,16 @@ class Interp:
                 return Val("adt", [Val("list", vals)], ("core::result::Result", "Ok"))
             if "Vec<" in dty or "HashSet<" in dty or "BTreeSet<" in dty:
                 return Val("list", items)
+            if dty == "alloc::string::String" and all(x.deref().k in ("str", "char") for x in items):
+                return vstr("".join(x.deref().v for x in items))
             return None
+        if m == "enumerate":
+            return Val("iter", [Val("tuple", [vint(i), x]) for i, x in enumerate(items)])
+        if m == "zip" and len(d) > 1 and d[1].k in ("iter", "list"):
+            return Val("iter", [Val("tuple", [x, y]) for x, y in zip(items, d[1].v)])
+        if m in ("skip", "take", "step_by") and len(d) > 1 and d[1].k == "int":
+            n = d[1].v
+            return Val("iter", items[n:] if m == "skip" else (items[:n] if m == "take" else (items[::n] if n > 0 else items)))
         return None
 
     def str_models(self, cs, args, d):
@@ -917,6 +977,8 @@ class Interp:
                 if r is None:
                     r = Val("unknown", "ret:%s" % cs.name)
                 res.calls.append((cs, args, r))
+                if cs.fn == "core::iter::traits::iterator::Iterator::next" and r is NONE_V and args and args[0].deref().k != "iter":
+                    self.havoc_loop(env, bb)
                 if cs.dest is not None:
                     self.write_place(env, cs.dest, r)
                 if cs.target is None:
@@ -934,6 +996,31 @@ class Interp:
                 break
         res.env = env
         return res
+
+    def havoc_loop(self, env, bb):
+        """a loop over a collection that is not modelled was stepped over (the call model answered `None` to its `next`): whatever
+        the loop body writes — directly, as a call's destination, or through a `&mut` it takes — is unknown afterwards"""
+        scc = self.body.scc_of(bb)
+        if not scc:
+            return
+        hit = set()
+        for i in scc:
+            blk = self.body.blocks[i]
+            for st in blk["stmts"]:
+                if st["s"] != "assign":
+                    continue
+                if "*" not in st["lhs"]["p"]:
+                    hit.add(st["lhs"]["l"])
+                rv = st["rv"]
+                if rv["k"] == "ref" and rv.get("bk") == "mut" and "*" not in rv["place"]["p"]:
+                    hit.add(rv["place"]["l"])
+            t = blk["term"]
+            if t["t"] == "call" and t.get("dest") is not None and "*" not in t["dest"]["p"]:
+                hit.add(t["dest"]["l"])
+        for l in hit:
+            cur = env.get(l)
+            if cur is not None and cur.k in ("str", "list", "int", "bool", "iter") :
+                env[l] = UNKNOWN
 
     def rvalue(self, env, rv):
         k = rv["k"]
